@@ -467,6 +467,18 @@ func evalFunc(e *Expr, env *Env) Value {
 			return checkFloat(math.Min(x, y))
 		}
 		return checkFloat(math.Max(x, y))
+	case "verifFn":
+		// the harness's own function, registered by the checks that use it: the number of its arguments
+		if len(args) > 1 {
+			unspecified("verifFn with %d arguments", len(args))
+		}
+		return I(int64(len(args)))
+	case "verifTag", "aTag":
+		arity(1)
+		if args[0].K != String {
+			unspecified("verifTag of %s", args[0].K)
+		}
+		return S("<" + args[0].S + ">")
 	case "randomInt":
 		arity(1)
 		if args[0].K == Int && args[0].I == 1 {
